@@ -7,6 +7,8 @@ is matched in full against a template in which only the facts (tables, optional 
 names) are variable.  Anything else - an extra statement, a condition wrapped around a check, a re-binding of a
 variable between the decoder and Header::try_from - no longer matches and raises AnchorLost (= the theorems are
 no longer about this code: a violation)."""
+import json
+import os
 import re
 from rustsrc import Source, AnchorLost, match_close
 
@@ -21,7 +23,109 @@ ITER_FIELDS = {'method': 'KMethod', 'scheme': 'KScheme', 'authority': 'KAuthorit
 
 
 def nows(s):
-    return re.sub(r'\s+', '', s)
+    """remove all white space OUTSIDE string, byte-string, char and byte literals"""
+    out = []
+    i, n = 0, len(s)
+    while i < n:
+        c = s[i]
+        if c == '"':
+            j = i + 1
+            while j < n and s[j] != '"':
+                j += 2 if s[j] == '\\' else 1
+            out.append(s[i:j + 1])
+            i = j + 1
+        elif c == "'":
+            m = re.match(r"'(\\.[^']*|[^'\\])'", s[i:])
+            if m:
+                out.append(m.group(0))
+                i += len(m.group(0))
+            else:
+                out.append(c)
+                i += 1
+        elif c.isspace():
+            i += 1
+        else:
+            out.append(c)
+            i += 1
+    return ''.join(out)
+
+
+def fn_full(src, name, nth=0):
+    """text of the nth `fn name` from the keyword to the closing brace (signature included), and its span"""
+    pos, m = 0, None
+    for _ in range(nth + 1):
+        m = re.compile(r'\bfn\s+' + re.escape(name) + r'\b').search(src.text, pos)
+        if not m:
+            raise AnchorLost('fn %s not found in %s' % (name, src.path))
+        pos = m.end()
+    i, depth = m.end(), 0
+    while i < len(src.text):
+        c = src.text[i]
+        if c in '([':
+            depth += 1
+        elif c in ')]':
+            depth -= 1
+        elif c == '{' and depth == 0:
+            break
+        i += 1
+    j = match_close(src.text, i)
+    return src.text[m.start():j + 1], (src.line_of(m.start()), src.line_of(j))
+
+
+BODIES_FILE = os.path.join(os.path.dirname(os.path.abspath(__file__)), 'snapshots', 'GenHeaders.bodies.json')
+
+
+def mask_after(text, marker, pattern, repl):
+    k = text.find(marker)
+    if k < 0:
+        raise AnchorLost('marker %s' % marker)
+    return text[:k] + re.sub(pattern, repl, text[k:])
+
+
+def whole_bodies(repo, spans):
+    """comment-free, white-space-free text (signature included) of every function between the QPACK codec and the
+    Header type on the six call paths; only the fact sites (error codes after Header::try_from) are masked"""
+    out = {}
+    hdr = Source(repo + '/h3/src/proto/headers.rs')
+    blk, spans['impl IntoIterator for Header'], _ = hdr.item_block(r'impl\s+IntoIterator\s+for\s+Header\b')
+    out['headers.rs impl IntoIterator for Header'] = nows(blk)
+    srv = Source(repo + '/h3/src/server/request.rs')
+    for name in ('resolve_request', 'accept_with_frame', 'resolve'):
+        t, spans['whole ' + name] = fn_full(srv, name)
+        t = nows(t)
+        if name == 'resolve':
+            t = mask_after(t, 'Header::try_from(fields)', r'leterror_code=Code::\w+;', 'leterror_code=Code::_;')
+        out['server/request.rs ' + name] = t
+    cli = Source(repo + '/h3/src/client/stream.rs')
+    t, spans['whole recv_response'] = fn_full(cli, 'recv_response')
+    out['client/stream.rs recv_response'] = mask_after(nows(t), 'Header::try_from(fields)', r'Code::\w+', 'Code::_')
+    con = Source(repo + '/h3/src/connection.rs')
+    t, spans['whole poll_recv_trailers'] = fn_full(con, 'poll_recv_trailers')
+    out['connection.rs poll_recv_trailers'] = mask_after(nows(t), 'Header::try_from(fields)', r'Code::\w+', 'Code::_')
+    for name in ('poll_recv_data', 'send_trailers'):
+        t, spans['whole ' + name] = fn_full(con, name)
+        out['connection.rs ' + name] = nows(t)
+    ccon = Source(repo + '/h3/src/client/connection.rs')
+    t, spans['whole send_request'] = fn_full(ccon, 'send_request')
+    out['client/connection.rs send_request'] = nows(t)
+    sstr = Source(repo + '/h3/src/server/stream.rs')
+    t, spans['whole send_response'] = fn_full(sstr, 'send_response')
+    out['server/stream.rs send_response'] = nows(t)
+    return out
+
+
+def check_bodies(bodies):
+    try:
+        snap = json.load(open(BODIES_FILE))
+    except FileNotFoundError:
+        raise AnchorLost('no body snapshot ' + BODIES_FILE)
+    for k, v in bodies.items():
+        w = snap.get(k)
+        if w is None:
+            raise AnchorLost('no body snapshot for ' + k)
+        if w != v:
+            i = next((j for j in range(min(len(v), len(w))) if v[j] != w[j]), min(len(v), len(w)))
+            raise AnchorLost('%s is no longer the code the model was written against; first difference at: ...%s' % (k, v[max(0, i - 40):i + 80]))
 
 
 def L(s):
@@ -340,6 +444,10 @@ def extract(repo):
     if nb.count('letmutblock') != 1 or nows('stream::write(&mut self.inner.stream, Frame::Headers(block.freeze()))') not in nb:
         raise AnchorLost('send_response: what is written')
     f['send_sites_ok'] = True
+
+    # ---- everything else on the six call paths: whole functions against the committed snapshot
+    check_bodies(whole_bodies(repo, spans))
+    f['call_paths_unchanged'] = True
     return f, spans
 
 
@@ -411,4 +519,17 @@ def render(f):
     Ls.append('(* send_request / send_response / send_trailers encode and write exactly Header::request(method, uri, headers, extensions) /')
     Ls.append('   Header::response(status, headers) / Header::trailer(trailers) of the caller\'s parts *)')
     Ls.append('Definition send_sites_ok : bool := %s.' % cb(f['send_sites_ok']))
+    Ls.append('(* into_iter, resolve_request, accept_with_frame, resolve, recv_response, poll_recv_data, poll_recv_trailers, send_request,')
+    Ls.append('   send_response, send_trailers: signature and body equal, token for token, the text the model was written against *)')
+    Ls.append('Definition call_paths_unchanged : bool := %s.' % cb(f['call_paths_unchanged']))
     return '\n'.join(Ls) + '\n'
+
+
+if __name__ == '__main__':
+    import sys
+    if sys.argv[1:2] == ['--update-bodies']:
+        repo = sys.argv[2] if len(sys.argv) > 2 else '/repo'
+        b = whole_bodies(repo, {})
+        with open(BODIES_FILE, 'w') as fh:
+            json.dump(b, fh, indent=1, sort_keys=True)
+        print('wrote', BODIES_FILE, len(b), 'bodies')
